@@ -404,3 +404,306 @@ Definition expected_skel : skel := [
     SkIf [] [SkReturn] [];
     SkReturn])
 ].
+
+(* ==== trace validation: replaying an OBSERVED execution of the real relay ==================
+   The overlay build (go/cmd/overlay) logs one event per synchronisation operation the relay
+   goroutines actually execute, in real order: a per-relay mutex makes "operation + log
+   append" one indivisible action for the atomics, the channel sends, addBuffer and
+   popBuffer; Lock is logged right after it was acquired and Unlock right before it is
+   released (so critical sections are exact); a readLine consumption is logged after the
+   bytes were taken (every addBuffer it depends on was logged before).
+   An event carries the goroutine role, the operation and the OBSERVED value.  [rv_labels]
+   maps an event, in the current model state, to the label(s) of [step_fn] it stands for,
+   provided the observed value is the one the model has (the status loaded is the current
+   status, the chunk sent / parked / popped is the one the model holds at that program
+   point, the CAS succeeded iff the model's status is the expected one, the channel is the
+   one the model sends on).  [rv_run] replays a whole trace and returns the final state or the
+   index of the first event that is not an enabled step.
+
+   Event <-> label (program points are those of expected_skel; codes are the trace tokens):
+     wrapInput        clientIn.Read                 RvRead RvIn c      LInRead   (preceded by the
+                                                     silent LInEnd false when the previous chunk's
+                                                     end-marker test found nothing: no operation)
+                      relayStatus.Load()            RvLoad RvIn x      LInLoad       x = status
+                      osStdinChan <- buf            RvSend RvIn RvSrv  LInSend       buf = chunk held
+     addHandshakeBuffer bufferLock.Lock()           RvLock r           LInLock / LOutLock
+                      relayStatus.Load()            RvReload r x       LInReload / LOutReload
+                      buffer.addBuffer(data)        RvAdd r c          LInAdd / LOutAdd
+                      deferred Unlock               RvUnlock r         L*UnlockP after an add, L*UnlockU otherwise
+     resetToStandby   relayStatus.CompareAndSwap    RvCas r old ok     LInEnd true / LOutEnd true (old = transferring),
+                                                                       LHsDone (old = handshaking); ok = (status = old)
+     wrapOutput       serverOut.Read                RvRead RvOut c     LOutRead (preceded by a silent LOutEnd false)
+                      relayStatus.Load()            RvLoad RvOut x     LOutLoad
+                      bypassTmuxChan <- buf         RvSend RvOut RvByp LOutBypass
+                      detector.detectTrzsz          RvDetect c' trig   LOutDetect c' trig
+                      relayStatus.Store(handshaking) RvStore RvOut x   LOutStoreH
+                      go r.handshake()              RvGo               LOutGo
+                      osStdoutChan <- buf           RvSend RvOut RvCli LOutSend
+     readLine         b.nextIdx += k                RvEat side k       LHsAct k RdMore / LHsCfg k RdMore
+     handshake        recvAction() / recvConfig() returned  RvRes side ok   LHsAct 0 RdOk|RdErr / LHsCfg 0 ...
+     sendStringToServer osStdinChan <- line         RvSend RvHs RvSrv l cf   LHsSendAct l cf (cf = action.Confirm) / LHsFail2 l
+     sendStringToClient bypassTmuxChan <- line      RvSend RvHs RvByp l      LHsSendCfg l / LHsFail1 l
+     flushHandshakeBuffer bufferLock.Lock()         RvLock RvHs cf     LHsLock   cf = the confirm argument
+                      stdinBuffer.popBuffer()       RvPop RvBufI x     LHsPopI   x = what the model pops
+                      osStdinChan <- buf            RvSend RvHs RvSrv  LHsSendI
+                      stdoutBuffer.popBuffer()      RvPop RvBufO x     LHsPopO
+                      bypassTmuxChan/osStdoutChan <- buf  RvSend RvHs RvByp/RvCli  LHsSendO (channel by cf)
+                      relayStatus.Store(transferring)     RvStore RvHs x           LHsDone (confirm)
+                      deferred Unlock               RvUnlock RvHs      LTlUnlock
+   Scope events (no model step): every Load/Store of tunnelConnected, tunnelRelay,
+   tunnelListener, tunnelConnector is logged as RvScope v and must have v = false / nil.
+   Deliberately not logged: bufCh operations inside addBuffer/popBuffer/nextBuffer (they are
+   the logged addBuffer/popBuffer/readLine steps themselves), close(chan) at EOF, the two
+   writer goroutines of NewTrzszRelay, r.trigger / r.clientIsWindows (racy plain fields),
+   tmuxRefreshClient, the trace logger. *)
+Close Scope string_scope.
+Inductive rv_role := RvIn | RvOut | RvHs.
+Inductive rv_chan := RvSrv | RvCli | RvByp.       (* osStdinChan / osStdoutChan / bypassTmuxChan *)
+Inductive rv_buf := RvBufI | RvBufO.              (* stdinBuffer / stdoutBuffer *)
+
+Inductive rv_ev :=
+| RvRead (r : rv_role) (c : chunk)
+| RvLoad (r : rv_role) (x : N)
+| RvLock (r : rv_role) (cf : bool)
+| RvReload (r : rv_role) (x : N)
+| RvAdd (r : rv_role) (c : chunk)
+| RvUnlock (r : rv_role)
+| RvSend (r : rv_role) (ch : rv_chan) (b : chunk) (cf : bool)
+| RvCas (r : rv_role) (old : N) (ok : bool)
+| RvStore (r : rv_role) (x : N)
+| RvDetect (c' : chunk) (trig : bool)
+| RvGo
+| RvEat (b : rv_buf) (n : nat)
+| RvRes (b : rv_buf) (ok : bool)
+| RvPop (b : rv_buf) (x : option chunk)
+| RvScope (v : bool).
+
+Definition rv_st_is (s : state) (x : N) : bool := status_code (st s) =? x.
+Definition rv_chan_eqb (a b : rv_chan) : bool :=
+  match a, b with RvSrv, RvSrv | RvCli, RvCli | RvByp, RvByp => true | _, _ => false end.
+Definition rv_opt_eqb (a b : option chunk) : bool :=
+  match a, b with Some x, Some y => list_eqb x y | None, None => true | _, _ => false end.
+Definition rv_when (b : bool) (ls : list label) : option (list label) := if b then Some ls else None.
+Definition rv_rd (ok : bool) : rd_res := if ok then RdOk else RdErr.
+Definition rv_head_is (l : list chunk) (c : chunk) : bool :=
+  match l with c0 :: _ => list_eqb c0 c | [] => false end.
+
+Definition rv_labels (e : rv_ev) (s : state) : option (list label) :=
+  match e with
+  | RvRead RvIn c =>
+      match ipc s with
+      | I0 => rv_when (rv_head_is (cin s) c) [LInRead]
+      | I6 _ => rv_when (rv_head_is (cin s) c) [LInEnd false; LInRead]
+      | _ => None end
+  | RvRead RvOut c =>
+      match opc s with
+      | O0 => rv_when (rv_head_is (sin s) c) [LOutRead]
+      | O6 => rv_when (rv_head_is (sin s) c) [LOutEnd false; LOutRead]
+      | _ => None end
+  | RvRead RvHs _ => None
+  | RvLoad RvIn x => match ipc s with I1 _ => rv_when (rv_st_is s x) [LInLoad] | _ => None end
+  | RvLoad RvOut x => match opc s with O1 _ => rv_when (rv_st_is s x) [LOutLoad] | _ => None end
+  | RvLoad RvHs _ => None
+  | RvLock RvIn _ => match ipc s with I3 _ => Some [LInLock] | _ => None end
+  | RvLock RvOut _ => match opc s with O3 _ => Some [LOutLock] | _ => None end
+  | RvLock RvHs cf => match hpc s with HL cf' => rv_when (Bool.eqb cf cf') [LHsLock] | _ => None end
+  | RvReload RvIn x => match ipc s with I4 _ => rv_when (rv_st_is s x) [LInReload] | _ => None end
+  | RvReload RvOut x => match opc s with O4 _ => rv_when (rv_st_is s x) [LOutReload] | _ => None end
+  | RvReload RvHs _ => None
+  | RvAdd RvIn c => match ipc s with I4a c0 => rv_when (list_eqb c0 c) [LInAdd] | _ => None end
+  | RvAdd RvOut c => match opc s with O4a c0 => rv_when (list_eqb c0 c) [LOutAdd] | _ => None end
+  | RvAdd RvHs _ => None
+  | RvUnlock RvIn => match ipc s with I4p => Some [LInUnlockP] | I4u _ _ => Some [LInUnlockU] | _ => None end
+  | RvUnlock RvOut => match opc s with O4p => Some [LOutUnlockP] | O4u _ _ => Some [LOutUnlockU] | _ => None end
+  | RvUnlock RvHs => rv_when (tlk s) [LTlUnlock]
+  | RvSend RvIn ch b _ =>
+      match ipc s with I5 c _ => rv_when (rv_chan_eqb ch RvSrv && list_eqb c b) [LInSend] | _ => None end
+  | RvSend RvOut ch b _ =>
+      match opc s with
+      | O5 c true => rv_when (rv_chan_eqb ch RvByp && list_eqb c b) [LOutBypass]
+      | O5s _ c' => rv_when (rv_chan_eqb ch RvCli && list_eqb c' b) [LOutSend]
+      | _ => None end
+  | RvSend RvHs ch b cf =>
+      match hpc s with
+      | H2 => rv_when (rv_chan_eqb ch RvSrv) [LHsSendAct b cf]
+      | H4 => rv_when (rv_chan_eqb ch RvByp) [LHsSendCfg b]
+      | HF1 => rv_when (rv_chan_eqb ch RvByp) [LHsFail1 b]
+      | HF2 => rv_when (rv_chan_eqb ch RvSrv) [LHsFail2 b]
+      | HS1 _ b' => rv_when (rv_chan_eqb ch RvSrv && list_eqb b' b) [LHsSendI]
+      | HS2 cf' b' => rv_when (rv_chan_eqb ch (if cf' then RvByp else RvCli) && list_eqb b' b) [LHsSendO]
+      | _ => None end
+  | RvCas RvIn old ok =>
+      match ipc s with
+      | I6 true => rv_when ((old =? status_code StT) && Bool.eqb ok (rv_st_is s old)) [LInEnd true]
+      | _ => None end
+  | RvCas RvOut old ok =>
+      match opc s with
+      | O6 => rv_when ((old =? status_code StT) && Bool.eqb ok (rv_st_is s old)) [LOutEnd true]
+      | _ => None end
+  | RvCas RvHs old ok =>
+      match hpc s with
+      | HD false => rv_when ((old =? status_code StH) && Bool.eqb ok (rv_st_is s old)) [LHsDone]
+      | _ => None end
+  | RvStore RvOut x => match opc s with O5h _ _ => rv_when (x =? status_code StH) [LOutStoreH] | _ => None end
+  | RvStore RvHs x => match hpc s with HD true => rv_when (x =? status_code StT) [LHsDone] | _ => None end
+  | RvStore RvIn _ => None
+  | RvDetect c' trig => match opc s with O5 _ false => Some [LOutDetect c' trig] | _ => None end
+  | RvGo => match opc s with O5g _ _ => Some [LOutGo] | _ => None end
+  | RvEat RvBufI n =>
+      match hpc s with H0 => rv_when (n <=? length (flat (ibr s) (ibq s)))%nat [LHsAct n RdMore] | _ => None end
+  | RvEat RvBufO n =>
+      match hpc s with H3 => rv_when (n <=? length (flat (obr s) (obq s)))%nat [LHsCfg n RdMore] | _ => None end
+  | RvRes RvBufI ok => match hpc s with H0 => Some [LHsAct O (rv_rd ok)] | _ => None end
+  | RvRes RvBufO ok => match hpc s with H3 => Some [LHsCfg O (rv_rd ok)] | _ => None end
+  | RvPop RvBufI x =>
+      match hpc s with
+      | HP1 _ => rv_when (rv_opt_eqb (fst (fst (pop_buf (ibr s) (ibq s)))) x) [LHsPopI]
+      | _ => None end
+  | RvPop RvBufO x =>
+      match hpc s with
+      | HP2 _ => rv_when (rv_opt_eqb (fst (fst (pop_buf (obr s) (obq s)))) x) [LHsPopO]
+      | _ => None end
+  | RvScope v => rv_when (negb v) []
+  end.
+
+Definition rv_step (tm : bool) (e : rv_ev) (s : state) : option state :=
+  match rv_labels e s with Some ls => run true tm ls s | None => None end.
+
+(* final state, or the index of the first offending event with the state in front of it *)
+Inductive rv_result := RvOk (s : state) | RvBad (i : nat) (s : state).
+
+Fixpoint rv_run (tm : bool) (es : list rv_ev) (i : nat) (s : state) : rv_result :=
+  match es with
+  | [] => RvOk s
+  | e :: r => match rv_step tm e s with Some s' => rv_run tm r (S i) s' | None => RvBad i s end
+  end.
+
+(* the label sequence a trace stands for (None = some event is not an enabled step) *)
+Fixpoint rv_path (tm : bool) (es : list rv_ev) (s : state) : option (list label) :=
+  match es with
+  | [] => Some []
+  | e :: r =>
+      match rv_labels e s with
+      | Some ls => match run true tm ls s with
+                   | Some s' => match rv_path tm r s' with Some ls' => Some (ls ++ ls') | None => None end
+                   | None => None end
+      | None => None end
+  end.
+
+(* ==== the reset guard ========================================================================
+   resetToStandby(expected) is CompareAndSwap(expected, standby): a reset request that was
+   decided for an EARLIER state (the input reader saw "transferring" and an end marker, then
+   was delayed behind its channel send) is harmless once the relay has moved on.  The variant
+   below carries the other possibility, a reset from whatever state the relay is in
+   (Swap(standby)), so that the model can say which interleavings need the guard; which of
+   the two the CURRENT source has is regenerated from relay.go ([rg_current] from
+   Consts.relay_reset_guarded; Proofs/Relay.v ties it to the generated skeleton as well). *)
+Definition rg_current : bool := negb Consts.relay_reset_guarded.
+
+Definition rg_reset (ug : bool) (expect : status) (s : state) : state :=
+  if ug then set_st s StS
+  else match expect, st s with StT, StT | StH, StH | StS, StS => set_st s StS | _, _ => s end.
+
+(* step_fn (faithful, re-read enabled) with the reset of the three resetToStandby call sites
+   replaced by [rg_reset ug]; [rg_step false] is [step_fn true] (Proofs: rg_step_guarded) *)
+Definition rg_step (ug tm : bool) (l : label) (s : state) : option state :=
+  match l with
+  | LInEnd cas => match ipc s with I6 t => Some (set_ipc (if t && cas then rg_reset ug StT s else s) I0) | _ => None end
+  | LOutEnd cas => match opc s with O6 => Some (set_opc (if cas then rg_reset ug StT s else s) O0) | _ => None end
+  | LHsDone => match hpc s with
+               | HD cf => Some (set_tl (set_lk (set_hpc (if cf then set_st s StT else rg_reset ug StH s) HN) ByTl) true)
+               | _ => None end
+  | _ => step_fn true tm l s
+  end.
+
+Fixpoint rg_run (ug tm : bool) (ls : list label) (s : state) : option state :=
+  match ls with
+  | [] => Some s
+  | l :: r => match rg_step ug tm l s with Some s' => rg_run ug tm r s' | None => None end
+  end.
+
+Definition conserved_O_b (si : list byte) (s : state) : bool :=
+  list_eqb (inO_of (hO s) ++ hs_flO (hpc s) ++ flat (obr s) (obq s) ++ inflightO (opc s) ++ concat (sin s)) si
+  && list_eqb (outO_of Std (hO s)) (clog s) && list_eqb (outO_of Byp (hO s)) (blog s).
+
+(* what the search looks for: conservation broken, or bytes parked while the relay is not
+   handshaking (nothing will ever flush them: parked_only_while_handshaking) *)
+Definition rg_is_nil (l : list byte) : bool := match l with [] => true | _ => false end.
+Definition rg_stranded (s : state) : bool :=
+  negb (rg_is_nil (flat (ibr s) (ibq s)) && rg_is_nil (flat (obr s) (obq s)))
+  && match st s with StH => false | _ => true end.
+Definition rg_bad (ci si : list byte) (s : state) : bool :=
+  negb (conserved_I_b ci s && conserved_O_b si s) || rg_stranded s.
+
+(* ---- the three threads as deterministic programs over an abstract alphabet --------------
+   For the schedule search the oracle choices of the labels are resolved by the CONTENT of
+   the chunks, over a small alphabet: a server chunk holding byte 9 carries a trigger; a
+   chunk holding 7 carries an end marker; 10 ends a line; a line holding 1 is a valid ACT
+   (with 3: confirm), a line holding 2 a valid CFG; the relay's own lines are [101] (ACT),
+   [102] (CFG), [103] (FAIL).  What a thread has to remember between two of its steps
+   (end marker in the chunk just sent, action.Confirm) is [rg_mem].  The worker reads a line
+   only when a complete one is parked (when it consumes the bytes is not observable). *)
+Definition rg_has (x : N) (c : list byte) : bool := existsb (N.eqb x) c.
+Fixpoint rg_line (l : list byte) : option nat :=
+  match l with
+  | [] => None
+  | b :: r => if b =? 10 then Some 1%nat else match rg_line r with Some k => Some (S k) | None => None end
+  end.
+
+Record rg_mem := rg_mk_mem { rg_ie : bool; rg_oe : bool; rg_cf : bool }.
+Definition rg_mem0 := rg_mk_mem false false false.
+Inductive rg_thread := RgIn | RgOut | RgHs | RgTl.
+
+Definition rg_next (th : rg_thread) (m : rg_mem) (s : state) : option (label * rg_mem) :=
+  match th with
+  | RgIn =>
+      match ipc s with
+      | I0 => match cin s with [] => None | _ => Some (LInRead, m) end
+      | I1 _ => Some (LInLoad, m) | I3 _ => Some (LInLock, m) | I4 _ => Some (LInReload, m)
+      | I4a _ => Some (LInAdd, m) | I4p => Some (LInUnlockP, m) | I4u _ _ => Some (LInUnlockU, m)
+      | I5 c _ => Some (LInSend, rg_mk_mem (rg_has 7 c) (rg_oe m) (rg_cf m))
+      | I6 _ => Some (LInEnd (rg_ie m), m)
+      end
+  | RgOut =>
+      match opc s with
+      | O0 => match sin s with [] => None | _ => Some (LOutRead, m) end
+      | O1 _ => Some (LOutLoad, m) | O3 _ => Some (LOutLock, m) | O4 _ => Some (LOutReload, m)
+      | O4a _ => Some (LOutAdd, m) | O4p => Some (LOutUnlockP, m) | O4u _ _ => Some (LOutUnlockU, m)
+      | O5 c true => Some (LOutBypass, rg_mk_mem (rg_ie m) (rg_has 7 c) (rg_cf m))
+      | O5 c false => Some (LOutDetect c (rg_has 9 c), m)
+      | O5h _ _ => Some (LOutStoreH, m) | O5g _ _ => Some (LOutGo, m) | O5s _ _ => Some (LOutSend, m)
+      | O6 => Some (LOutEnd (rg_oe m), m)
+      end
+  | RgHs =>
+      match hpc s with
+      | HN => None
+      | H0 => match rg_line (flat (ibr s) (ibq s)) with
+              | Some k => let line := firstn k (flat (ibr s) (ibq s)) in
+                          Some (LHsAct k (if rg_has 1 line then RdOk else RdErr), rg_mk_mem (rg_ie m) (rg_oe m) (rg_has 3 line))
+              | None => None end
+      | H2 => Some (LHsSendAct [101] (rg_cf m), m)
+      | H3 => match rg_line (flat (obr s) (obq s)) with
+              | Some k => Some (LHsCfg k (if rg_has 2 (firstn k (flat (obr s) (obq s))) then RdOk else RdErr), m)
+              | None => None end
+      | H4 => Some (LHsSendCfg [102], m)
+      | HF1 => Some (LHsFail1 [103], m) | HF2 => Some (LHsFail2 [103], m)
+      | HL _ => Some (LHsLock, m) | HP1 _ => Some (LHsPopI, m) | HS1 _ _ => Some (LHsSendI, m)
+      | HP2 _ => Some (LHsPopO, m) | HS2 _ _ => Some (LHsSendO, m) | HD _ => Some (LHsDone, m)
+      end
+  | RgTl => if tlk s then Some (LTlUnlock, m) else None
+  end.
+
+Definition rg_move (ug tm : bool) (th : rg_thread) (ms : rg_mem * state) : option (label * (rg_mem * state)) :=
+  match rg_next th (fst ms) (snd ms) with
+  | Some (l, m') => match rg_step ug tm l (snd ms) with Some s' => Some (l, (m', s')) | None => None end
+  | None => None
+  end.
+
+(* back at the head of its loop (In, Out), finished (Hs), released (Tl) *)
+Definition rg_at_head (th : rg_thread) (s : state) : bool :=
+  match th with
+  | RgIn => match ipc s with I0 => true | _ => false end
+  | RgOut => match opc s with O0 => true | _ => false end
+  | RgHs => match hpc s with HN => true | _ => false end
+  | RgTl => negb (tlk s)
+  end.
